@@ -444,4 +444,26 @@ theorem C12_tone_after_syllable (c : Cfg) (pre tail post : List G) (x tn : G) (s
 example := C12_tone_after_syllable ⟨fun _ => true, fun _ => false, false, 0⟩ [] [⟨0x1161, 1, 0⟩] [] ⟨0x1100, 0, 0⟩
   ⟨0x302E, 2, 0⟩ [(0xAC00, 0)] (by decide) (by decide) (by simp) (by decide)
 
+
+/-! ## C12_one_cluster -/
+
+/-- **One cluster, at the iteration.** At cluster level 0 (monotone graphemes), in *any* loop state — whatever is
+    already in the out-buffer and whatever follows — the iteration that recognises a syllable at the current
+    glyph `x` (i.e. the abstract parser renders it with `syl ≠ []`: any of the composed / decomposed / tagged
+    shapes above) appends exactly the glyphs of `syl`, and all of them carry one and the same cluster. -/
+theorem C12_one_cluster_step (c : Cfg) (hlev : c.level = 0) (st : St) (x : G) (rest : List G)
+    (hi : st.inp = x :: rest) (hnt : isTone x.cp = false)
+    (hp : (parse (sup c) (key x) (keys rest)).1 ≠ []) :
+    ∃ st', step c st = some st' ∧
+      keys (st'.out.take st.out.length) = keys st.out ∧
+      keys (st'.out.drop st.out.length) = (parse (sup c) (key x) (keys rest)).1 ∧
+      sameCluster (st'.out.drop st.out.length) := by
+  obtain ⟨st', hst, _, _, h3, _, _, h6⟩ := step_syllable c st x rest hi hnt hp
+  refine ⟨st', hst, ?_, ?_, h6 hlev⟩
+  · rw [keys_take, h3, List.take_left' (by simp)]
+  · rw [keys_drop, h3, List.drop_left' (by simp)]
+
+example := C12_one_cluster_step ⟨fun u => decide (u < 0x2000), fun _ => false, false, 0⟩ rfl
+  { out := [], inp := [⟨0xAC01, 7, 0⟩], start := 0, end_ := 0 } ⟨0xAC01, 7, 0⟩ [] rfl (by decide) (by decide)
+
 end RbModel.Hangul
